@@ -2,7 +2,7 @@
    Statements only; each is closed by [exact] of a lemma proved in Strconv/*Proofs.v. *)
 From Coq Require Import Reals Floats.SpecFloat.
 From Flocq Require Import Core.Core IEEE754.BinarySingleNaN.
-From Verif Require Import Common.Base Strconv.Model Strconv.FModel Strconv.IntProofs Strconv.NumProofs Strconv.DecProofs Strconv.ScanProofs Strconv.FloatProofs Strconv.DecValueProofs Strconv.DecSideProofs Strconv.AccuracyProofs Strconv.AFProofs Strconv.AFShape Strconv.Legacy.
+From Verif Require Import Common.Base Strconv.Model Strconv.FModel Strconv.IntProofs Strconv.NumProofs Strconv.DecProofs Strconv.ScanProofs Strconv.FloatProofs Strconv.DecValueProofs Strconv.DecSideProofs Strconv.AccuracyProofs Strconv.AFProofs Strconv.AFShape Strconv.AFValueProofs Strconv.Legacy.
 Open Scope Z_scope.
 
 (* ParseInt, for EVERY byte string: written as sign ++ digits ++ rest (sign = "", "+" or "-";
@@ -261,8 +261,9 @@ Print Assumptions parse_decimal_fastpath_frac_partial.
    bounds (the listed finding class "extreme"), results within 1e-15 of MaxFloat64 ("near-max") and subnormal
    results. *)
 
-(* math.Pow10(k) is within 2^-51 of 10^k for -290 <= k <= 290 (computed on the table dumped from the toolchain) *)
-Theorem math_pow10_accurate : forall k, -290 <= k <= 290 ->
+(* math.Pow10(k) is within 2^-51 of 10^k for -308 <= k <= 308, i.e. wherever the power is a normal number
+   (computed on the table dumped from the toolchain) *)
+Theorem math_pow10_accurate : forall k, -308 <= k <= 308 ->
   exists (P : binary_float 53 1024) d, pow10 k = B2SF P /\ is_finite P = true /\
     B2R P = (Rp10 k * (1 + d))%R /\ (Rabs d <= uu)%R.
 Proof. exact pow10_rel. Qed.
@@ -352,3 +353,27 @@ Theorem parse_decimal_accuracy_frac_partial : forall sg zs1 zs2 d1 sp' tail,
     (Rabs (B2R v - V) <= 6 * uu * Rabs V)%R /\ (Rabs (B2R v - round64 V) <= / 100000000000000 * Rabs (round64 V))%R.
 Proof. exact parse_decimal_accuracy_frac_proof. Qed.
 Print Assumptions parse_decimal_accuracy_frac_partial.
+
+(* AppendFloat for EVERY normal float64 (valid_binary, exponent field not 0; the subnormal numbers are the listed
+   finding class "subnormal"), every prec, destination and spare capacity.  With p' the adjusted precision
+   (prec - exp10 after the correction of 4092954) and mant = int64(|f| * 10^p') the scaled mantissa:
+   (1) mant fits int64: 0 <= mant < 10^19  (this closes the side condition of append_float_shape_partial);
+   (2) mant * 10^-p' is |f| truncated at the last requested digit, up to the binary64 noise of the scaling:
+       |mant * 10^-p' - |f|| <= 10^-p' + 5 * 2^-51 * |f|;
+   (3) the destination is preserved and what is appended is "0" when mant = 0 and otherwise a well-formed literal
+       with '-' exactly when f < 0.
+   MISSING for the property's parse-back clause: that the literal printed by the layout denotes exactly mant * 10^-p'
+   (the digits of mant with the dot/exponent placed by p'): proved only in shape (append_float_layout), tied by the
+   bit-for-bit correspondence and checked by the big-rational oracle; and that p' gives exactly prec+1 significant
+   digits, which fails by one digit on the listed class "pow10-boundary" (|f| next to a power of ten). *)
+Theorem append_float_normal_partial : forall b spare f prec, valid_binary 53 1024 f = true -> f_normal f = true ->
+  let neg := flt f fzero in
+  let g := if neg then fneg f else f in
+  let p' := af_prec g prec in
+  let mant := af_mant g prec in
+  0 <= mant < 10 ^ 19 /\
+  (Rabs (IZR mant * Rp10 (- p') - Rabs (SF2R radix2 f)) <= Rp10 (- p') + 5 * uu * Rabs (SF2R radix2 f))%R /\
+  exists out, append_float b spare f prec = Ok (b ++ out) /\
+              (mant = 0 -> out = [48]) /\ (0 < mant -> float_literal neg out).
+Proof. exact append_float_normal_proof. Qed.
+Print Assumptions append_float_normal_partial.
